@@ -117,7 +117,7 @@ def initState (fs : List (Field α)) : St α :=
   ⟨initQueue fs (graphOf fs), [], (graphOf fs).inDegree⟩
 
 /-- Every pop is paid for by an initial queue entry or by one key's in-degree reaching 0, so
-    `2 * len(fields)` iterations always suffice (`Props.C19.C19_order_terminates`). -/
+    `2 * len(fields)` iterations suffice for every input (`Props.C19.C19_order_terminates_all`). -/
 def fuelFor (fs : List (Field α)) : Nat := 2 * fs.length + 1
 
 def finalState (fs : List (Field α)) : St α :=
